@@ -2079,6 +2079,8 @@ impl Value {
                 Array::new(nums.shape, data).into()
             }
             Value::Byte(mut bytes) => {
+                // The elements are rewritten in place: what was known about their order no longer holds
+                bytes.meta.take_sorted_flags();
                 if range_bound > 0.0 {
                     for b in bytes.data.as_mut_slice() {
                         *b = ((*b as f64) < range_bound) as u8;
